@@ -40,7 +40,7 @@ _validate_regex = re.compile(
 _canonicalize_regex = re.compile(r"[-_.]+")
 _normalized_regex = re.compile(r"^(?!.*--)([a-z0-9]|[a-z0-9][a-z0-9-]*[a-z0-9])\Z")
 # PEP 427: The build number must start with a digit.
-_build_tag_regex = re.compile(r"(\d+)(.*)")
+_build_tag_regex = re.compile(r"(\d+)(.*)", re.DOTALL)
 
 
 def canonicalize_name(name: str, *, validate: bool = False) -> NormalizedName:
